@@ -52,6 +52,7 @@ type lfsServer struct {
 	taintedAt    map[string]int // oid -> index into reqs at which a batch response naming hashAlgo offered it
 	mutate   func(kind string, v map[string]interface{}) // corrupt a response just before it is sent (C18)
 	cursorsHanded map[string]bool
+	slowGet    func(w http.ResponseWriter, r *http.Request, b []byte) // serves a storage GET outside the server lock (C02 concurrency)
 	hdrStyle   int  // how the server spells the header NAMES of the actions it offers: 0 canonical, 1 lower, 2 upper, 3 mixed
 	offerExtra bool // offered actions also carry Authorization (and, for uploads, Content-Type)
 }
@@ -240,6 +241,13 @@ func (s *lfsServer) handle(w http.ResponseWriter, r *http.Request) {
 			return
 		}
 		s.capture(r, nil, "storage-get")
+		if b, ok := s.objs[oid]; ok && s.slowGet != nil {
+			hook := s.slowGet
+			s.mu.Unlock()
+			hook(w, r, b)
+			s.mu.Lock()
+			return
+		}
 		if b, ok := s.objs[oid]; ok {
 			w.Write(b)
 		} else {
